@@ -683,7 +683,7 @@ func bindFormatter(c *Ctx, r *Rec) *fmtRoles {
 		}
 	}
 	if fr.depthF == nil || fr.maxF == nil || fr.bufF == nil || fr.appendFD == nil || fr.intrFD == nil {
-		r.undecided("bind", "cdcn."+n.Obj().Name(), "", "cannot bind depth/maximum/buffer fields, the append method and the intrinsic type switch of the formatter")
+		r.skip("bind", "cdcn."+n.Obj().Name(), "", "cannot bind depth/maximum/buffer fields, the append method and the intrinsic type switch of the formatter")
 		return nil
 	}
 	return fr
@@ -788,7 +788,7 @@ func runC10(c *Ctx, r *Rec) {
 	checkArmsAnswerTheirOwnName(c, r, "D3-context-names-the-kind", fileFuncs(c, "cdcn", fr.n, fr.cls))
 	st := c.scanTables()
 	if len(st.problems) > 0 || len(st.matchers) == 0 || len(st.order) == 0 {
-		r.undecided("bind", "cdcn.scanner-tables", "", "cannot extract the scanner's matcher table and scan order: "+strings.Join(st.problems, "; "))
+		r.skip("bind", "cdcn.scanner-tables", "", "cannot extract the scanner's matcher table and scan order: "+strings.Join(st.problems, "; "))
 		return
 	}
 	// ---- alphabet
@@ -812,7 +812,7 @@ func runC10(c *Ctx, r *Rec) {
 	for _, src := range sources {
 		re, err := parseRegex(src)
 		if err != nil {
-			r.undecided("D1-leaf-scannable", "regex", "", fmt.Sprintf("cannot parse %q: %v", src, err))
+			r.skip("D1-leaf-scannable", "regex", "", fmt.Sprintf("cannot parse %q: %v", src, err))
 			return
 		}
 		al.addRegexp(re)
@@ -839,7 +839,7 @@ func runC10(c *Ctx, r *Rec) {
 		re, _ := parseRegex(src)
 		d, err := dfaFromRegexp(al, re)
 		if err != nil {
-			r.undecided("D1-leaf-scannable", "cdcn.matcher/"+name, c.pos(st.matcherPos[name]), err.Error())
+			r.skip("D1-leaf-scannable", "cdcn.matcher/"+name, c.pos(st.matcherPos[name]), err.Error())
 			return
 		}
 		tokDFA[name] = d.minimize()
